@@ -92,6 +92,38 @@ def cases():
         out.append(('date and time("%s")' % s, 'null'))
     for s in ('2021-03-04T10:20:59', '2021-03-04T23:59:59Z', '2021-03-04T00:00:00+01:00', '2020-02-29T10:20:30'):
         out.append(('string(date and time("%s"))' % s, '"%s"' % s))
+    # fractional seconds are exact to the nanosecond (every 9-digit fraction, sampled), also in negative durations; the sign of a duration covers
+    # the fraction; components may exceed their normal range (PT300M) and are normalised; a component beyond u64 or nothing after T is no literal
+    import random
+    rnd = random.Random(20260924)
+    fracs = ['132147786', '000000001', '999999999', '100000000', '123456789', '5', '25', '000000010'] + ['%09d' % rnd.randrange(1, 10 ** 9) for _ in range(600)]
+    for f in fracs:
+        shown = f.rstrip('0')
+        out.append(('string(time("10:20:30.%sZ"))' % f, '"10:20:30.%sZ"' % shown))
+        out.append(('string(duration("PT7.%sS"))' % f, '"PT7.%sS"' % shown))
+        out.append(('string(duration("-PT7.%sS"))' % f, '"-PT7.%sS"' % shown))
+    for f in fracs[:60]:
+        shown = f.rstrip('0')
+        out.append(('string(date and time("2021-03-04T10:20:30.%s+01:00"))' % f, '"2021-03-04T10:20:30.%s+01:00"' % shown))
+        out.append(('string(time("10:20:30.%s@Europe/Warsaw"))' % f, '"10:20:30.%s@Europe/Warsaw"' % shown))
+        out.append(('string(date and time("2021-03-04T10:20:30.%s"))' % f, '"2021-03-04T10:20:30.%s"' % shown))
+    for (a, b) in (('-PT0.5S', 'PT0S'), ('-PT1.5S', '-PT1S'), ('-PT1M0.75S', '-PT1M'), ('-P1DT0.000000001S', '-P1D')):
+        out.append(('duration("%s") in (< duration("%s"))' % (a, b), 'true'))   # (the operator < itself answers null for durations)
+    for (a, b) in (('-PT1.5S', 'PT1.5S'), ('-PT0.5S', 'PT0.5S'), ('-P1DT2H3M4.25S', 'P1DT2H3M4.25S')):
+        out.append(('duration("%s") = -duration("%s")' % (a, b), 'true'))
+        out.append(('duration("%s") + duration("%s") = duration("PT0S")' % (a, b), 'true'))
+    for (a, b) in (('PT300M', 'PT5H'), ('PT1440M', 'P1D'), ('PT1H256M', 'PT5H16M'), ('-P1DT1000M1.5S', '-P1DT16H40M1.5S'), ('PT100000S', 'P1DT3H46M40S'), ('PT25H', 'P1DT1H'), ('PT255M', 'PT4H15M'),
+                   ('PT256M', 'PT4H16M'), ('PT65536M', 'P45DT12H16M'), ('PT4294967296S', 'P49710DT6H28M16S'), ('P400D', 'P400D'), ('PT1000H', 'P41DT16H'), ('PT70000M70000S', 'P49DT10H6M40S')):
+        out.append(('duration("%s") = duration("%s")' % (a, b), 'true'))
+        out.append(('string(duration("%s"))' % a, '"%s"' % b))
+    for s_ in ('P1DT', '-P1DT', 'P18446744073709551616D', 'PT18446744073709551616H', 'P1DT18446744073709551616M', 'PT99999999999999999999S', 'P18446744073709551616DT1H'):
+        out.append(('duration("%s")' % s_, 'null'))
+    out.append(('string(duration("P18446744073709551615D"))', '"P18446744073709551615D"'))
+    # negative years print with four digits after the sign and read back
+    for (y, txt) in ((-1, '-0001'), (-5, '-0005'), (-44, '-0044'), (-999, '-0999'), (-1000, '-1000'), (-12345, '-12345'), (-999999999, '-999999999')):
+        out.append(('string(date(%d, 3, 4))' % y, '"%s-03-04"' % txt))
+        out.append(('date(string(date(%d, 3, 4))) = date(%d, 3, 4)' % (y, y), 'true'))
+        out.append(('string(date and time("%s-03-04T10:20:30"))' % txt, '"%s-03-04T10:20:30"' % txt))
     # time(h, m, s, offset): like in time literals the magnitude of the offset is below 15 hours, whatever the size of the duration (C14: a zone is
     # printed as the offset that was written - so an offset that cannot be written is no time)
     for (o, txt) in (('PT0S', 'Z'), ('PT1H', '+01:00'), ('-PT1H30M', '-01:30'), ('PT14H59M59S', '+14:59:59'), ('-PT14H59M59S', '-14:59:59'), ('-PT0.9S', 'Z')):
